@@ -510,5 +510,5 @@ META = {
             "dies; actors end by ACTOR_EXIT; commutation is not observed on the running application (no state-fingerprint hook).",
     "technique": "translator (builder chain re-executed -> Coq table) + Coq proofs (case analysis driven by the table) + differential correspondence "
                  "+ both-orders oracle on the real kernel objects",
-    "claimed": False,
+    "claimed": True,
 }
